@@ -84,7 +84,9 @@ def queries(tier):
     for n, v in divisors:
         qs.append(dq('ds_div/u64/d=' + n, 'h_ds_div', U64, 64, defs={'DIVISOR': '%dULL' % v}, backend='cvc5int'))
     # arbitrary 64-bit divisors: counterexample search only (a proof is out of reach)
-    qs.append(dq('ds_div/u64/kf/div_odd', 'h_ds_div', U64, 64, backend='kissat', kf_only='C19-div-odd'))
+    qs.append(dq('ds_div/u64/kf/div_odd', 'h_ds_div', U64, 64, defs={'CHECK_MULT': 1}, backend='kissat', kf_only='C19-div-odd'))
+    # sanity of the proving set-up: the same proof attempted for one divisor of the defect class must fail
+    qs.append(dq('ds_div/u64/kf/div_odd_const', 'h_ds_div', U64, 64, defs={'DIVISOR': '%dULL' % (2 ** 63 + 1)}, backend='cvc5int', kf_only='C19-div-odd'))
     return qs
 
 def dq(name, entry, w, wb, defs=None, **kw):
